@@ -155,15 +155,7 @@ func sinkFaults(c *simkit.Choices, x *simkit.Ctx) *simkit.Violation {
 		st.Distinct(simkit.NewDigest().Str(sc.Target).Str(sc.Stream).Int(k).Str(fmt.Sprint(opts)).Sum())
 		fw := simkit.NewWriter()
 		fw.FailFrom = k
-		fw.Err = &injErr{k}
-		switch k % 4 {
-		case 1:
-			fw.Err = io.ErrShortWrite
-		case 2:
-			fw.Err = io.ErrClosedPipe
-		case 3:
-			fw.Err = io.EOF
-		}
+		fw.Err = sinkErr(k, x)
 		fw.Clock = &x.Clock
 		fw.FailCount = failCount
 		var got error
@@ -237,7 +229,7 @@ func foldSinkFaults(c *simkit.Choices, x *simkit.Ctx) *simkit.Violation {
 		st.Fault("write-fails-from-k")
 		st.Distinct(simkit.NewDigest().Str(sc.Target).Str(sc.Value).Int(k).Str(fmt.Sprint(opts)).Sum())
 		fw := simkit.NewWriter()
-		fw.FailFrom, fw.Err, fw.Clock = k, &injErr{k}, &x.Clock
+		fw.FailFrom, fw.Err, fw.Clock = k, sinkErr(k, x), &x.Clock
 		fw.FailCount = k % 3
 		var got error
 		if pi := simkit.Guard(func() { got = run(fw) }); pi != nil {
@@ -298,7 +290,7 @@ func pipeSinkFaults(c *simkit.Choices, x *simkit.Ctx) *simkit.Violation {
 		st.Fault("write-fails-from-k")
 		st.Distinct(simkit.NewDigest().Str(sc.Target).Str(sc.Doc).Str(sc.Entry).Ints(reads).Int(k).Sum())
 		fw := simkit.NewWriter()
-		fw.FailFrom, fw.Err, fw.Clock = k, &injErr{k}, &x.Clock
+		fw.FailFrom, fw.Err, fw.Clock = k, sinkErr(k, x), &x.Clock
 		fw.FailCount = k % 3
 		var got error
 		if pi := simkit.Guard(func() { got = run(fw) }); pi != nil {
@@ -793,4 +785,30 @@ func foreignErrors() []error {
 	}
 	foreignErrs = out
 	return out
+}
+
+// tempErr is a sink error that calls itself temporary (as EAGAIN, EINTR and
+// network time-outs do): the sink KEEPS failing with it all the same.
+type tempErr struct{ k int }
+
+func (e *tempErr) Error() string   { return fmt.Sprintf("temporary sink failure #%d", e.k) }
+func (e *tempErr) Temporary() bool { return true }
+func (e *tempErr) Timeout() bool   { return e.k%2 == 0 }
+
+// sinkErr picks the error value the failing writer returns from write k on.
+func sinkErr(k int, x *simkit.Ctx) error {
+	switch k % 6 {
+	case 1:
+		return io.ErrShortWrite
+	case 2:
+		return io.ErrClosedPipe
+	case 3:
+		return io.EOF
+	case 4:
+		return []error{syscall.EAGAIN, syscall.EINTR, &tempErr{k}, os.ErrDeadlineExceeded, syscall.EPIPE, syscall.ENOSPC}[(k/6+int(x.Clock%5))%6]
+	case 5:
+		vals := foreignErrors()
+		return vals[(k/6+int(x.Clock%7))%len(vals)]
+	}
+	return &injErr{k}
 }
